@@ -47,6 +47,9 @@ def structure_case(draw, tier):
             "start": start, "mode": draw(st.sampled_from(MODES + ["both"])),
             "entry": draw(st.sampled_from(ENTRIES)),
             "handle": draw(st.sampled_from(HANDLES)),
+            # a first traversal of the same tree (object) is aborted by an exception raised in a callback after some calls;
+            # the caller catches it and traverses again
+            "aborted_first": draw(st.sampled_from([None, None, None, 1, 2, 5])),
             # what the `leave` callback does with the list it was handed, once it has read it ("all callbacks")
             "mutate": draw(st.sampled_from(["no", "no", "append", "clear", "sort-reverse"])),
             # what `enter` returns: a unique token, the depth below the start node (0 at the start node), or values
@@ -101,8 +104,12 @@ def _handle(tree, i, how):
     return tree.node(i)
 
 
+class _Abort(Exception):
+    pass
+
+
 def _run_traverse(parents, start, mode, entry, enter, leave, current=None, edit=None, edit_sel=None, decoy_cb=None, row_order=None,
-                  handle="node(i)"):
+                  handle="node(i)", aborted_first=None):
     from swcgeom.core.swc_utils import traverse
 
     kw = {}
@@ -133,6 +140,19 @@ def _run_traverse(parents, start, mode, entry, enter, leave, current=None, edit=
             tree.node(a).pid = b
     if current is not None:
         current[0] = tree
+    if aborted_first:
+        calls = [0]
+
+        def boom(*a):
+            calls[0] += 1
+            if calls[0] >= aborted_first:
+                raise _Abort()
+            return None
+
+        try:
+            tree.traverse(**{k: boom for k in kw}) if entry == "tree" else tree.node(0).traverse(**{k: boom for k in kw})
+        except _Abort:
+            pass
     if entry == "tree":
         return tree.traverse(root=start, **kw)
     return _handle(tree, start, handle).traverse(**kw)
@@ -227,7 +247,9 @@ def run_structure(case, ctx):
 
     ret = _run_traverse(parents, start, mode, entry, enter, leave, current, edit=case.get("edit") if entry != "swc_utils" else None,
                         edit_sel=case.get("edit_sel"), decoy_cb=decoy_run, row_order=case.get("row_order"),
-                        handle=case.get("handle", "node(i)"))
+                        handle=case.get("handle", "node(i)"), aborted_first=case.get("aborted_first"))
+    if case.get("aborted_first") and entry != "swc_utils":
+        ctx.cls("traversed-again-after-an-aborted-traversal")
     if entry == "node":
         ctx.cls("handle:" + case.get("handle", "node(i)"))
     if entry == "swc_utils" and case.get("row_order") is not None:
@@ -368,7 +390,8 @@ SUBCHECKS = [
                   "leave-callback-mutates-its-argument:append": 100, "leave-callback-mutates-its-argument:clear": 100,
                   "enter-returns:depth": 100, "enter-returns:falsy": 100, "callbacks-reused-from-another-tree": 100,
                   "tree-re-parented-in-place-after-a-first-traversal": 300, "raw-table-with-rows-in-any-order": 150, "edit:item": 60, "edit:copy-then-node.pid": 60,
-                  "handle:tree[i-n]": 100, "handle:tree[i:i+1][0]": 100, "handle:iteration": 100}),
+                  "handle:tree[i-n]": 100, "handle:tree[i:i+1][0]": 100, "handle:iteration": 100,
+                  "traversed-again-after-an-aborted-traversal": 300}),
     Sub("deep", deep_case, run_deep, quick=64, thorough=96, shards_quick=4,
         required={"limited-recursion": 8, "rows=2^8-or-2^16": 3, "deep:chain": 2, "deep:caterpillar": 2, "deep:caterpillar-leaves-numbered-last": 2,
                   "deep:caterpillar-shuffled": 2}),
